@@ -1,8 +1,8 @@
 (** * Theorems about ALL histories of the ZBDD manager state machine (Mgr/HistoryZ.v)
 
     For every configuration (operand order [gt], cache implementation
-    [C]/[cget]/[cadd] that is [zlossy], its cleared state [cempty], its reaction
-    [cav] to [add_vars] with [cav_ok]), every number [n] of initial variables
+    [C]/[cget]/[cadd] that is [zlossy], its cleared state [cempty]), every
+    number [n] of initial variables
     and every history (list of [zhop]) of well-formed requests from the empty
     ZBDD manager [hinit_z n]:
 
@@ -27,7 +27,7 @@ From OxiVerif Require Import DD.Table DD.TableExtra DD.TableProofs DD.Sem DD.Bui
   DD.ZbddRestrictProofs DD.ZbddRestrictTop DD.ZbddCubeCanon
   DD.ConfigInsert DD.ConfigRun DD.ConfigZbddRun DD.ConfigZbddIndep
   Mgr.SortOrder Mgr.SortOrderProofs Mgr.LevelSwap Mgr.LevelSwapOrder Mgr.LevelSwapZ Mgr.LevelSwapZProofs Mgr.LevelSwapZChain
-  Mgr.History Mgr.HistoryBase Mgr.HistoryZ Mgr.HistoryZBase Mgr.HistoryZProofs.
+  Mgr.History Mgr.HistoryBase Mgr.HistoryZ Mgr.HistoryZBase Mgr.HistoryZCache Mgr.HistoryZProofs.
 Import ListNotations.
 
 Local Arguments hset : simpl never.
@@ -92,12 +92,10 @@ Variable cadd : C -> N -> list ref -> list nat -> ref -> C.
 Hypothesis Hlossy : zlossy C cget cadd.
 Variable cempty : C.
 Hypothesis Hempty : forall k a m, cget cempty k a m = None.
-Variable cav : C -> C.
-Hypothesis Hcav : cav_ok C cget cav.
 
 Notation hstate_z := (hstate_z C).
-Notation hstep_z := (hstep_z gt C cget cadd cempty cav).
-Notation hrun_z := (hrun_z gt C cget cadd cempty cav).
+Notation hstep_z := (hstep_z gt C cget cadd cempty).
+Notation hrun_z := (hrun_z gt C cget cadd cempty).
 Notation HInvZ := (HInvZ C cget).
 Notation zhop_pre := (zhop_pre C).
 Notation hframe_z := (hframe_z C).
@@ -105,23 +103,26 @@ Notation hpost_z := (hpost_z C).
 Notation zholds := (zholds C).
 Notation zroot := (zroot C).
 Notation hinit_z := (hinit_z C cempty).
-Notation step_ok := (hstep_z_ok gt C cget cadd Hlossy cempty Hempty cav Hcav).
+Notation step_ok := (hstep_z_ok gt C cget cadd Hlossy cempty Hempty).
 
 (** the invariant, spelled out *)
 Theorem hinvz_unfold : forall st : hstate_z,
   HInvZ st <->
-  (ZbddOK (hz_s C st) /\ ZChainOK (hz_s C st) /\ ZCacheOKB C cget (hz_s C st) (hz_c C st)).
+  (ZbddOK (hz_s C st) /\ ZChainOK (hz_s C st) /\
+   ZCacheOKB C (zcgetN C cget (nlevels (hz_s C st))) (hz_s C st) (hz_c C st) /\
+   znofuture C cget (nlevels (hz_s C st)) (hz_c C st)).
 Proof.
   intros st. split.
-  - intros [A B D]. auto.
-  - intros [A [B D]]. constructor; assumption.
+  - intros [A B D F]. auto.
+  - intros [A [B [D F]]]. constructor; assumption.
 Qed.
 
 Theorem hinit_z_inv : forall n, HInvZ (hinit_z n).
 Proof.
   intros n. destruct (zchain_rebuild_chain _ (emptyz_ok n)) as [B [Hc _]].
-  constructor; simpl; [exact B | exact Hc |].
-  intros code args nums r E. rewrite Hempty in E. discriminate.
+  constructor; simpl; [exact B | exact Hc | |].
+  - intros code args nums r E. unfold zcgetN in E. rewrite Hempty in E. discriminate.
+  - intros a m n' r E. rewrite Hempty in E. discriminate.
 Qed.
 
 (** ** Runs *)
@@ -428,7 +429,7 @@ Proof.
 Qed.
 
 Theorem zhops_pre_b_sound : forall ops st, HInvZ st ->
-  zhops_pre_b gt C cget cadd cempty cav st ops = true -> zhops_pre st ops.
+  zhops_pre_b gt C cget cadd cempty st ops = true -> zhops_pre st ops.
 Proof.
   induction ops as [|o rest IH]; intros st I Hb; simpl in *; [exact Logic.I|].
   apply andb_true_iff in Hb. destruct Hb as [A B0].
@@ -438,7 +439,7 @@ Proof.
 Qed.
 
 (** a history accepted by the checker runs to completion, in a reachable state *)
-Theorem hrun_z_checked : forall n ops, zhops_pre_b gt C cget cadd cempty cav (hinit_z n) ops = true ->
+Theorem hrun_z_checked : forall n ops, zhops_pre_b gt C cget cadd cempty (hinit_z n) ops = true ->
   exists st, hrun_z (hinit_z n) ops = Some st /\ hreach_z n st.
 Proof.
   intros n ops Hb. pose proof (zhops_pre_b_sound ops (hinit_z n) (hinit_z_inv n) Hb) as P.
